@@ -3,7 +3,7 @@
 cd /verif
 for D in "$@"; do
   S=$(mktemp -d /tmp/benign-XXXXXX)
-  rsync -a --exclude .git /repo/ $S/ && ( cd $S && patch -p1 -s < "$D" ) || { echo "$D PATCH-FAILED"; rm -rf $S; continue; }
+  D=$(readlink -f "$D"); rsync -a --exclude .git /repo/ $S/ && ( cd $S && patch -p1 -s < "$D" ) || { echo "$D PATCH-FAILED"; rm -rf $S; continue; }
   for P in C13 C15 C16 C17; do
     out=$(VERIF_REPO=$S bin/check $P quick 2>&1); rc=$?
     echo "$(basename $(dirname $D))/$(basename $D) $P exit=$rc $(echo "$out" | grep -o 'oracle=[^ ]*' | sort -u | tr '\n' ' ') $(echo "$out" | grep '^MACHINERY' | head -1 | cut -c1-200)"
